@@ -1048,3 +1048,134 @@ Proof.
   - right. exists (fs_ibuf st). split; [exact Li|exact Ib].
   - exists (fs_tbuf st). split; [exact Lt|exact Tb].
 Qed.
+
+(* ================= ascii faces with per-corner texture coordinates ================= *)
+(* under the conditions below the ascii list reader changes the state exactly as the binary one ([face_step]) *)
+Definition pos_ok (ip : nat) (tp : option nat) (k : nat) (lt : sty) (ws : list N) : Prop :=
+  (k = ip -> index_ty_ok lt = true /\ (length ws <= 4)%nat /\ Forall (fun w => w < 2 ^ 31) ws) /\
+  (nat_eqb_opt tp k = true -> (lt = Float \/ lt = Double) /\ (length ws <= 8)%nat).
+Fixpoint all_pos_ok (ip : nat) (tp : option nat) (k : nat) (rs : list (sty * sty)) (f : list (list N)) : Prop :=
+  match rs, f with
+  | (_, lt) :: rs', ws :: f' => pos_ok ip tp k lt ws /\ all_pos_ok ip tp (S k) rs' f'
+  | [], [] => True
+  | _, _ => False
+  end.
+
+Lemma idx_ascii_signed lt ws : Forall (fun w => w < 2 ^ 31) ws -> map (idx_ascii lt) ws = map signed32 ws.
+Proof.
+  intros F. apply map_ext_in. intros w Iw. rewrite Forall_forall in F. specialize (F w Iw). unfold idx_ascii, signed32.
+  replace (w <? 2 ^ 31) with true by (symmetry; apply N.ltb_lt; exact F). destruct lt; reflexivity.
+Qed.
+
+Lemma mapR_tok_f64 lt ws : lt = Float \/ lt = Double ->
+  mapR (fun t => of_opt EDeclared (tok_f64 t)) (map (tok_of_word lt) ws) = Ok (map (tex_value lt) ws).
+Proof.
+  intros H. induction ws as [|w ws IH]; [reflexivity|]. cbn [map]. rewrite mapR_cons, IH.
+  destruct H as [-> | ->]; reflexivity.
+Qed.
+
+Lemma face_ascii_cons_step ct lt rs k ip tp ws rest st :
+  pos_ok ip tp k lt ws ->
+  face_ascii ((ct, lt) :: rs) k ip tp (enc_list_ascii lt ws ++ rest) st =
+  face_ascii rs (S k) ip tp rest (face_step k ip tp lt ws st).
+Proof.
+  intros [Hi Ht]. unfold enc_list_ascii. cbn [app face_ascii tok_int of_opt rbind].
+  replace (Z.of_nat (length ws) <? 0)%Z with false by (symmetry; apply Z.ltb_ge; lia).
+  replace (Z.of_nat (length (map (tok_of_word lt) ws ++ rest)) <? Z.of_nat (length ws))%Z with false
+    by (symmetry; apply Z.ltb_ge; rewrite app_length, map_length; lia).
+  cbn [orb]. rewrite Nat2Z.id.
+  assert (F1 : firstn (length ws) (map (tok_of_word lt) ws ++ rest) = map (tok_of_word lt) ws)
+    by (rewrite <- (map_length (tok_of_word lt) ws); apply firstn_app_exact).
+  assert (F2 : skipn (length ws) (map (tok_of_word lt) ws ++ rest) = rest)
+    by (rewrite <- (map_length (tok_of_word lt) ws); apply skipn_app_length).
+  rewrite F1, F2. unfold face_step.
+  destruct (Nat.eqb k ip) eqn:E.
+  - apply Nat.eqb_eq in E. destruct (Hi E) as [I [L4 Sm]].
+    replace (4 <? Z.of_nat (length ws))%Z with false by (symmetry; apply Z.ltb_ge; lia).
+    rewrite (mapR_tok_int lt ws I), (idx_ascii_signed lt ws Sm). cbn [rbind].
+    destruct (nat_eqb_opt tp k) eqn:Et.
+    + destruct (Ht eq_refl) as [Fl L8].
+      replace (8 <? Z.of_nat (length ws))%Z with false by (symmetry; apply Z.ltb_ge; lia).
+      destruct Fl as [-> | ->]; discriminate I.
+    + cbn [rbind]. destruct lt; try discriminate I; reflexivity.
+  - cbn [rbind]. destruct (nat_eqb_opt tp k) eqn:Et; [|reflexivity].
+    destruct (Ht eq_refl) as [Fl L8].
+    replace (8 <? Z.of_nat (length ws))%Z with false by (symmetry; apply Z.ltb_ge; lia).
+    rewrite (mapR_tok_f64 lt ws Fl). cbn [rbind fs_ibuf fs_tbuf fs_points].
+    destruct Fl as [-> | ->]; cbn [tex_value]; [reflexivity|]. rewrite map_id. reflexivity.
+Qed.
+
+Lemma face_ascii_fold ip tp : forall rs f k st,
+  all_pos_ok ip tp k rs f ->
+  face_ascii rs k ip tp (enc_face_ascii rs f) st = Ok (face_fold rs f k ip tp st).
+Proof.
+  induction rs as [|[ct lt] rs IH]; intros f k st A.
+  - destruct f; [reflexivity|contradiction].
+  - destruct f as [|ws f]; [contradiction|]. destruct A as [P A].
+    unfold enc_face_ascii. cbn [combine flat_map]. rewrite face_ascii_cons_step by exact P.
+    cbn [face_fold]. apply IH, A.
+Qed.
+
+Lemma all_pos_ok_intro ip tp : forall rs f k, length f = length rs ->
+  (forall j ct lt ws, nth_error rs j = Some (ct, lt) -> nth_error f j = Some ws -> pos_ok ip tp (k + j) lt ws) ->
+  all_pos_ok ip tp k rs f.
+Proof.
+  induction rs as [|[ct lt] rs IH]; intros f k L H.
+  - destruct f; [exact I|discriminate].
+  - destruct f as [|ws f]; [discriminate|]. split.
+    + specialize (H 0%nat ct lt ws eq_refl eq_refl). rewrite Nat.add_0_r in H. exact H.
+    + apply IH; [simpl in L; lia|]. intros j c l w Hr Hf. specialize (H (S j) c l w Hr Hf).
+      replace (S k + j)%nat with (k + S j)%nat by lia. exact H.
+Qed.
+
+(* QUAD FAN with texture coordinates, ascii: one face per line *)
+Theorem quad_fan_tex_ascii_proof : forall rs ip tk ct lt ctt ltt (fs : list (list (list N))) st,
+  rs <> [] -> nth_error rs ip = Some (ct, lt) -> index_ty_ok lt = true ->
+  nth_error rs tk = Some (ctt, ltt) -> (ltt = Float \/ ltt = Double) ->
+  length (fs_ibuf st) = 4%nat -> length (fs_tbuf st) = 8%nat ->
+  Forall (fun f => length f = length rs /\
+                   ((length (nth ip f []) = 3%nat /\ length (nth tk f []) = 6%nat) \/
+                    (length (nth ip f []) = 4%nat /\ length (nth tk f []) = 8%nat)) /\
+                   Forall (fun w => w < 2 ^ 31) (nth ip f [])) fs ->
+  faces_ascii rs ip (Some tk) (map (enc_face_ascii rs) fs) (length fs) st =
+  Ok (flat_map (fun f => fan_tris (map signed32 (nth ip f []))) fs,
+      flat_map (fun f => fan (pairs (map (tex_value ltt) (nth tk f []))) []) fs).
+Proof.
+  intros rs ip tk ct lt ctt ltt fs st NE N I Nt Ft Li Lt F. revert st Li Lt.
+  induction F as [|f fs [L [L34 Sm]] F IH]; intros st Li Lt; [reflexivity|].
+  cbn [length map faces_ascii].
+  assert (Hne : enc_face_ascii rs f <> []).
+  { destruct rs as [|[c0 l0] rs]; [congruence|]. destruct f as [|ws f]; [discriminate|].
+    unfold enc_face_ascii, enc_list_ascii. cbn [combine flat_map app]. discriminate. }
+  destruct (enc_face_ascii rs f) as [|tk0 l0] eqn:E; [congruence|]. rewrite <- E.
+  assert (A : all_pos_ok ip (Some tk) 0 rs f).
+  { apply all_pos_ok_intro; [exact L|]. intros j c l w Hr Hf. cbn [Nat.add]. split.
+    - intros ->. rewrite N in Hr. injection Hr as <- <-.
+      assert (w = nth ip f []) by (symmetry; apply nth_error_nth; exact Hf). subst w.
+      split; [exact I|]. split; [destruct L34 as [[-> _]|[-> _]]; lia|exact Sm].
+    - cbn [nat_eqb_opt]. intros Ek. apply Nat.eqb_eq in Ek. subst j. rewrite Nt in Hr. injection Hr as <- <-.
+      assert (w = nth tk f []) by (symmetry; apply nth_error_nth; exact Hf). subst w.
+      split; [exact Ft|]. destruct L34 as [[_ ->]|[_ ->]]; lia. }
+  rewrite (face_ascii_fold ip (Some tk) rs f 0 st A). cbn [rbind].
+  set (st' := face_fold rs f 0 ip (Some tk) st).
+  assert (P : fs_points st' = Z.of_nat (length (nth ip f []))).
+  { unfold st'. rewrite (fold_points ip tk rs f 0 st ct lt); [rewrite Nat.sub_0_r; reflexivity|lia|exact L|rewrite Nat.sub_0_r; exact N]. }
+  assert (Ib : fs_ibuf st' = overwrite (map signed32 (nth ip f [])) (fs_ibuf st)).
+  { unfold st'. rewrite (fold_ibuf ip tk rs f 0 st ct lt); [rewrite Nat.sub_0_r; reflexivity|lia|exact L|rewrite Nat.sub_0_r; exact N|exact I|].
+    rewrite Nat.sub_0_r. destruct L34 as [[-> _]|[-> _]]; lia. }
+  assert (Tb : fs_tbuf st' = overwrite (map (tex_value ltt) (nth tk f [])) (fs_tbuf st)).
+  { unfold st'. destruct (fold_tbuf ip tk rs f 0 st ctt ltt) as [E'|[E1 E2]];
+      [lia|exact L|rewrite Nat.sub_0_r; exact Nt| | |].
+    - rewrite Nat.sub_0_r. destruct L34 as [[_ ->]|[_ ->]]; lia.
+    - rewrite Nat.sub_0_r in E'. exact E'.
+    - destruct Ft; congruence. }
+  rewrite (face_out_tex (map signed32 (nth ip f [])) (map (tex_value ltt) (nth tk f [])) st').
+  - cbn [rbind]. rewrite IH.
+    + cbn [rbind]. reflexivity.
+    + fold st'. rewrite Ib, overwrite_length; [exact Li|]. rewrite map_length, Li. destruct L34 as [[-> _]|[-> _]]; lia.
+    + fold st'. rewrite Tb, overwrite_length; [exact Lt|]. rewrite map_length, Lt. destruct L34 as [[_ ->]|[_ ->]]; lia.
+  - rewrite !map_length. exact L34.
+  - rewrite map_length. exact P.
+  - right. exists (fs_ibuf st). split; [exact Li|exact Ib].
+  - exists (fs_tbuf st). split; [exact Lt|exact Tb].
+Qed.
